@@ -30,7 +30,7 @@ type corpusFile struct {
 }
 
 func kindByName(s string) kind {
-	for _, k := range []kind{KInt, KStr, KArr, KStruct} {
+	for _, k := range []kind{KInt, KStr, KArr, KStruct, KUInt} {
 		if k.String() == s {
 			return k
 		}
